@@ -9,16 +9,18 @@ calling `next` on the source, a test of the result, a body.  This pass rewrites 
 with the closures' bodies in place (same splicing as rules/expand.py), so that the same rules decide the same code.
 
 Handled: sources of any type (the `next` of the source is called); adaptors `map`, `filter`, `copied`, `cloned`; consumers
-`fold`, `for_each`, `any`, `all`, and the `for` loop itself over an adapted iterator.  Only pipelines that are new with
+`fold`, `for_each`, and the `for` loop itself over an adapted iterator.  Only pipelines that are new with
 respect to the reference tree are rewritten (a new closure in them, or more such calls in the function than the reference
 tree had: rules/known_closures.json); everything else stays as the compiler lowered it.
 """
-from .expand import (_pl, _new_local, _agg, _closure_of, _bind_captures, _defs, _known, content_hash, OPTION)
+from .expand import (_pl, _new_local, _agg, _closure_of, _bind_captures, _defs, _known, content_hash, OPTION, thread_variant_switches)
 from .inline import _splice, _live, _fold_switches, _resolve_refs
 from .mir import strip_generics
 
 ADAPTORS = ("map", "filter", "copied", "cloned")
-CONSUMERS = ("fold", "for_each", "any", "all")
+# `any` / `all` could be lowered the same way (the code below handles them) but are left as calls: a rule that meets one reads
+# the predicate closure directly, which says more than an early-exit loop does
+CONSUMERS = ("fold", "for_each")
 
 
 def _short(callee):
@@ -401,6 +403,7 @@ def apply(facts):
         lower_body(j, bodies, known, log)
         if len(log) > n0:
             _fold_switches(j, adts)
+            thread_variant_switches(j, adts)   # `elem = Some(f(x))` continues in the loop body's `Some` arm
             _resolve_refs(j)
     gone = {k for e in log for k in e.get("closures", [])}
     for j in facts["bodies"]:
